@@ -238,6 +238,12 @@ func init() {
 		return ex.c64(uint64(ex.counters[ex.strArg(args[0])]))
 	})
 
+	reg("vf:vfRecentMilli", func(ex *Exec, fr *Frame, args []Value, site ssa.Instruction) Value {
+		t := ex.input(ex.strArg(args[0]), 64)
+		ex.assume(ex.ts.Ult(t, ex.c64(1<<50)))
+		return t
+	})
+	reg("vf:vfBeforeEncode", func(ex *Exec, fr *Frame, args []Value, site ssa.Instruction) Value { return nil })
 	reg("vf:vfTier", func(ex *Exec, fr *Frame, args []Value, site ssa.Instruction) Value {
 		return ex.c64(uint64(ex.w.tier))
 	})
@@ -574,4 +580,250 @@ func hasPrefixAny(s string, ps ...string) bool {
 		}
 	}
 	return false
+}
+
+func (ex *Exec) concSlice(v Value, what string) (a *ArrObj, off, n int) {
+	s := v.(SliceV)
+	if s.arr == nil {
+		return nil, 0, 0
+	}
+	return s.arr, int(ex.concretize(s.off, what)), int(ex.concretize(s.len, what))
+}
+
+func init() {
+	// crypto/subtle.XORBytes(dst, x, y) int
+	reg("crypto/subtle.XORBytes", func(ex *Exec, fr *Frame, args []Value, site ssa.Instruction) Value {
+		da, doff, dn := ex.concSlice(args[0], "xorbytes")
+		xa, xoff, xn := ex.concSlice(args[1], "xorbytes")
+		ya, yoff, yn := ex.concSlice(args[2], "xorbytes")
+		n := min(xn, yn)
+		if n == 0 {
+			return ex.c64(0)
+		}
+		if n > dn {
+			ex.violation("panic/xorbytes-dst-too-short@"+ex.posOf(site), "subtle.XORBytes: dst too short", nil)
+			panic(pathEnd{kind: endPanic, msg: "XORBytes dst too short"})
+		}
+		inexact := func(a *ArrObj, o int) bool {
+			return a == da && o != doff && o < doff+n && doff < o+n
+		}
+		if inexact(xa, xoff) || inexact(ya, yoff) {
+			ex.violation("panic/xorbytes-inexact-overlap@"+ex.posOf(site), "subtle.XORBytes: invalid overlap", nil)
+			panic(pathEnd{kind: endPanic, msg: "XORBytes overlap"})
+		}
+		vals := make([]*Term, n)
+		for i := 0; i < n; i++ {
+			x := ex.arrRead(xa, ex.c64(uint64(xoff+i))).(*Term)
+			y := ex.arrRead(ya, ex.c64(uint64(yoff+i))).(*Term)
+			vals[i] = ex.ts.Xor(x, y)
+		}
+		for i := 0; i < n; i++ {
+			ex.arrWrite(da, ex.c64(uint64(doff+i)), vals[i])
+		}
+		return ex.c64(uint64(n))
+	})
+	// vfBlockEnc(dst, src []byte, bs int): dst[:bs] = E(src[:bs]) for an uninterpreted block function E
+	reg("vf:vfBlockEnc", func(ex *Exec, fr *Frame, args []Value, site ssa.Instruction) Value {
+		bs := ex.concreteInt(args[2], "bs")
+		da, doff, dn := ex.concSlice(args[0], "blockenc")
+		sa, soff, sn := ex.concSlice(args[1], "blockenc")
+		if sn < bs {
+			ex.violation("panic/block-input-not-full-block@"+ex.posOf(site), "cipher.Block.Encrypt: input not full block", nil)
+			panic(pathEnd{kind: endPanic, msg: "block input short"})
+		}
+		if dn < bs {
+			ex.violation("panic/block-output-smaller-than-input@"+ex.posOf(site), "cipher.Block.Encrypt: output smaller than input", nil)
+			panic(pathEnd{kind: endPanic, msg: "block output short"})
+		}
+		in := make([]*Term, bs)
+		for i := 0; i < bs; i++ {
+			in[i] = ex.arrRead(sa, ex.c64(uint64(soff+i))).(*Term)
+		}
+		for i := 0; i < bs; i++ {
+			ex.arrWrite(da, ex.c64(uint64(doff+i)), ex.ts.UF(fmt.Sprintf("E%d_%d", bs, i), 8, in...))
+		}
+		ex.counters["block-encrypt"]++
+		return nil
+	})
+	// salsa20.XORKeyStream(out, in, nonce, key): out[i] = in[i] ^ KS(nonce, i)
+	reg("golang.org/x/crypto/salsa20.XORKeyStream", func(ex *Exec, fr *Frame, args []Value, site ssa.Instruction) Value {
+		oa, ooff, on := ex.concSlice(args[0], "salsa")
+		ia, ioff, in := ex.concSlice(args[1], "salsa")
+		na, noff, nn := ex.concSlice(args[2], "salsa")
+		if on < in {
+			ex.violation("panic/salsa20-output-smaller-than-input@"+ex.posOf(site), "salsa20: output smaller than input", nil)
+			panic(pathEnd{kind: endPanic, msg: "salsa out short"})
+		}
+		if nn != 8 && nn != 24 {
+			ex.violation("panic/salsa20-nonce-size@"+ex.posOf(site), "salsa20: nonce must be 8 or 24 bytes", nil)
+			panic(pathEnd{kind: endPanic, msg: "salsa nonce"})
+		}
+		nonce := make([]*Term, nn)
+		for i := range nonce {
+			nonce[i] = ex.arrRead(na, ex.c64(uint64(noff+i))).(*Term)
+		}
+		vals := make([]*Term, in)
+		for i := 0; i < in; i++ {
+			a := append(append([]*Term{}, nonce...), ex.ts.Const(16, uint64(i)))
+			vals[i] = ex.ts.Xor(ex.arrRead(ia, ex.c64(uint64(ioff+i))).(*Term), ex.ts.UF("salsaKS", 8, a...))
+		}
+		for i := 0; i < in; i++ {
+			ex.arrWrite(oa, ex.c64(uint64(ooff+i)), vals[i])
+		}
+		return nil
+	})
+}
+
+// ---------- Reed-Solomon: abstract MDS code (DESIGN.md §2.3) ----------
+
+type rsCodeword struct {
+	d, p   int
+	n      int
+	shards [][]*Term
+}
+
+func (ex *Exec) sliceOfSlices(v Value) []SliceV {
+	s := v.(SliceV)
+	if s.arr == nil {
+		return nil
+	}
+	n := int(ex.concretize(s.len, "rs"))
+	off := int(ex.concretize(s.off, "rs"))
+	out := make([]SliceV, n)
+	for i := range out {
+		out[i], _ = ex.arrRead(s.arr, ex.c64(uint64(off+i))).(SliceV)
+	}
+	return out
+}
+
+func (ex *Exec) readBytes(s SliceV) []*Term {
+	if s.arr == nil {
+		return nil
+	}
+	n := int(ex.concretize(s.len, "rs"))
+	off := int(ex.concretize(s.off, "rs"))
+	out := make([]*Term, n)
+	for i := range out {
+		out[i] = ex.arrRead(s.arr, ex.c64(uint64(off+i))).(*Term)
+	}
+	return out
+}
+
+func init() {
+	reg("github.com/klauspost/reedsolomon.New", func(ex *Exec, fr *Frame, args []Value, site ssa.Instruction) Value {
+		f := ex.pkg.Func("vfNewRS")
+		if f == nil {
+			panic(pathEnd{kind: endUnsupported, msg: "vfNewRS harness function missing"})
+		}
+		enc := ex.call(fr, f, []Value{args[0], args[1]}, nil, site)
+		return TupleV{enc, IfaceV{}}
+	})
+	// vfRSEncodeGhost(d, p int, shards [][]byte): parity := UF per column; registers the code word
+	reg("vf:vfRSEncodeGhost", func(ex *Exec, fr *Frame, args []Value, site ssa.Instruction) Value {
+		d, p := ex.concreteInt(args[0], "rs"), ex.concreteInt(args[1], "rs")
+		sh := ex.sliceOfSlices(args[2])
+		cw := &rsCodeword{d: d, p: p}
+		data := make([][]*Term, d)
+		for i := 0; i < d; i++ {
+			data[i] = ex.readBytes(sh[i])
+		}
+		cw.n = len(data[0])
+		cw.shards = append(cw.shards, data...)
+		for j := 0; j < p; j++ {
+			par := make([]*Term, cw.n)
+			off := int(ex.concretize(sh[d+j].off, "rs"))
+			for c := 0; c < cw.n; c++ {
+				col := make([]*Term, d)
+				for i := 0; i < d; i++ {
+					col[i] = data[i][c]
+				}
+				par[c] = ex.ts.UF(fmt.Sprintf("rsP%d_%d_%d", d, p, j), 8, col...)
+				ex.arrWrite(sh[d+j].arr, ex.c64(uint64(off+c)), par[c])
+			}
+			cw.shards = append(cw.shards, par)
+		}
+		ex.rsWords = append(ex.rsWords, cw)
+		ex.counters["rs-encode"]++
+		return nil
+	})
+	// vfRSReconstructGhost(d, p int, shards [][]byte, n int): fills the missing data shards (already sized n)
+	// with the originals of a registered code word iff every present shard provably equals that word's shard
+	// in the same slot; otherwise with unconstrained bytes. Returns true if a code word matched.
+	reg("vf:vfRSReconstructGhost", func(ex *Exec, fr *Frame, args []Value, site ssa.Instruction) Value {
+		d, p := ex.concreteInt(args[0], "rs"), ex.concreteInt(args[1], "rs")
+		sh := ex.sliceOfSlices(args[2])
+		n := ex.concreteInt(args[3], "rs")
+		presentV := ex.sliceOfSlices(args[4]) // bool per slot encoded as []byte of len 1/0? see harness: present[i] has len>0
+		var match *rsCodeword
+		for _, cw := range ex.rsWords {
+			if cw.d != d || cw.p != p || cw.n != n {
+				continue
+			}
+			ok := true
+			for k := 0; k < d+p && ok; k++ {
+				if presentV[k].arr == nil || presentV[k].len.val == 0 {
+					continue
+				}
+				got := ex.readBytes(sh[k])
+				for c := 0; c < n && ok; c++ {
+					if got[c] == cw.shards[k][c] {
+						continue
+					}
+					eq := ex.ts.Eq(got[c], cw.shards[k][c])
+					if eq.IsFalse() || ex.check(ex.ts.BNot(eq), false) != Unsat {
+						ok = false
+					}
+				}
+			}
+			if ok {
+				match = cw
+				break
+			}
+		}
+		ex.counters["rs-reconstruct"]++
+		for i := 0; i < d; i++ {
+			if presentV[i].arr != nil && presentV[i].len.val != 0 {
+				continue
+			}
+			off := int(ex.concretize(sh[i].off, "rs"))
+			for c := 0; c < n; c++ {
+				var v *Term
+				if match != nil {
+					v = match.shards[i][c]
+				} else {
+					v = ex.ts.Var(ex.freshName("rsgarbage"), 8)
+				}
+				ex.arrWrite(sh[i].arr, ex.c64(uint64(off+c)), v)
+			}
+		}
+		if match != nil {
+			ex.counters["rs-reconstruct-matched"]++
+		}
+		return ex.ts.Bool(match != nil)
+	})
+	// sort.Slice(x any, less func(i, j int) bool): insertion sort with the real less closure
+	reg("sort.Slice", func(ex *Exec, fr *Frame, args []Value, site ssa.Instruction) Value {
+		s, ok := args[0].(IfaceV).v.(SliceV)
+		if !ok || s.arr == nil {
+			return nil
+		}
+		n := int(ex.concretize(s.len, "sort"))
+		off := int(ex.concretize(s.off, "sort"))
+		less := func(i, j int) bool {
+			r := ex.callValue(fr, args[1], []Value{ex.c64(uint64(i)), ex.c64(uint64(j))}, site).(*Term)
+			return ex.branch(r)
+		}
+		swap := func(i, j int) {
+			a := ex.copyVal(ex.arrRead(s.arr, ex.c64(uint64(off+i))))
+			b := ex.copyVal(ex.arrRead(s.arr, ex.c64(uint64(off+j))))
+			ex.arrWrite(s.arr, ex.c64(uint64(off+i)), b)
+			ex.arrWrite(s.arr, ex.c64(uint64(off+j)), a)
+		}
+		for i := 1; i < n; i++ {
+			for j := i; j > 0 && less(j, j-1); j-- {
+				swap(j, j-1)
+			}
+		}
+		return nil
+	})
 }
